@@ -41,7 +41,8 @@ def run_jobs(jobs, nproc=None, deadline=None, chunk=300, known=(), xval=2, timeo
     for j in jobs:
         j = dict(j)
         j.setdefault("roots", [[]])
-        j.update(chunk=chunk, deadline=deadline, known=list(known), xval=xval, timeout_ms=timeout_ms, seed=seed)
+        kn = [k for k in known if not k.get("job_filter") or eval(k["job_filter"], {"params": j["params"], "harness": j["harness"]})]
+        j.update(chunk=chunk, deadline=deadline, known=kn, xval=xval, timeout_ms=timeout_ms, seed=seed)
         pending.append(j)
     timed_out = False
     inflight = 0
